@@ -35,7 +35,7 @@ Record cfg := {
   nfb : nat;                         (* feedbacks in collection order: the robot's, then each component's *)
   teleop_in_auto : bool;             (* use_teleop_in_autonomous *)
   has_auto : bool;                   (* an autonomous mode is selected *)
-  fms : bool;                        (* DriverStation.isFMSAttached() *)
+  fms : bool;                        (* DriverStation.isFMSAttached() when the program starts *)
   nattr : nat;                       (* tracked attributes per component *)
   marked : nat -> nat -> option Z    (* will_reset_to default of attribute a of component c *)
 }.
@@ -45,18 +45,20 @@ Record world := {
   w_store : nat -> nat -> Z;         (* component attributes *)
   w_nt : nat -> option Z;            (* NetworkTables entry of feedback j *)
   w_ntmode : option mode;            (* /robot/mode *)
-  w_exc : option site                (* exception in flight, raised by that site *)
+  w_exc : option site;               (* exception in flight, raised by that site *)
+  w_fms : bool                       (* DriverStation.isFMSAttached() now *)
 }.
-#[export] Instance eta_world : Settable _ := settable! Build_world <w_n; w_store; w_nt; w_ntmode; w_exc>.
+#[export] Instance eta_world : Settable _ := settable! Build_world <w_n; w_store; w_nt; w_ntmode; w_exc; w_fms>.
 
 Inductive event :=
 | EvCB (s : site)                            (* a user callback was invoked *)
 | EvExec (i : nat) (snap : list (list Z))    (* execute() of component i; what it sees in every tracked attribute *)
-| EvRP (m : option mode) (fb : list (option Z)).
-                                             (* robotPeriodic; what NetworkTables shows: /robot/mode and the feedback entries *)
+| EvRP (m : option mode) (fb : list (option Z)) (snap : list (list Z)).
+                                             (* robotPeriodic; what NetworkTables shows (/robot/mode, the feedback entries)
+                                                and what it sees in every tracked attribute *)
 
 Definition site_of (e : event) : site :=
-  match e with EvCB s => s | EvExec i _ => SExecute i | EvRP _ _ => SRobotPeriodic end.
+  match e with EvCB s => s | EvExec i _ => SExecute i | EvRP _ _ _ => SRobotPeriodic end.
 
 Definition act := world -> world * list event.
 
@@ -68,7 +70,10 @@ Definition updn {A} (f : nat -> A) (k : nat) (v : A) : nat -> A :=
   fun x => if Nat.eqb x k then v else f x.
 
 (* the driver-station control word seen at a loop wake-up, or endCompetition() *)
-Inductive tick := Tick (en au te : bool) | End.
+Inductive tick :=
+| Tick (en au te : bool)
+| End
+| Fms (b : bool).      (* the FMS gets attached / detached while the loop is waiting (no wake-up) *)
 
 (* The framework code, as a program: the nesting of PGuard is the nesting of the
    try/except blocks of the Python source. *)
@@ -78,6 +83,7 @@ Inductive prog :=
 | PFeedback (j : nat)              (* try: v = getter()  except: onException()  else: setter(v) *)
 | PReset                           (* component.__dict__.update(reset_dict) for every component *)
 | PMode (m : mode)                 (* NetworkTables /robot/mode := m *)
+| PFms (b : bool)                  (* not framework code: the environment attaches / detaches the FMS *)
 | PGuard (p : prog)                (* try: p  except: self.onException() *)
 | PSeq (a b : prog).
 Definition pseq (l : list prog) : prog := fold_right PSeq PNop l.
@@ -153,6 +159,7 @@ Definition stays (m : mode) (en au te : bool) : bool :=
 Definition tick_prog (cur : option mode) (t : tick) : option mode * prog :=
   match t with
   | End => (None, match cur with Some m => leave m | None => PNop end)
+  | Fms b => (cur, PFms b)
   | Tick en au te =>
       match cur with
       | Some m =>
@@ -198,15 +205,15 @@ Definition invoke (s : site) : act :=
     let k := w_n w in
     let ev := match s with
               | SExecute i => EvExec i (snapshot w)
-              | SRobotPeriodic => EvRP (w_ntmode w) (nt_view w)
+              | SRobotPeriodic => EvRP (w_ntmode w) (nt_view w) (snapshot w)
               | _ => EvCB s
               end in
     let w1 := w <| w_n := S k |> <| w_store := apply_writes (writes k) (w_store w) |> in
     (if raises k then w1 <| w_exc := Some s |> else w1, [ev]).
 
-(* onException(): re-raises unless the FMS is attached *)
+(* onException(): re-raises unless the FMS is attached (at this moment) *)
 Definition handle (w : world) : world :=
-  if in_flight w then (if fms c then w <| w_exc := None |> else w) else w.
+  if in_flight w then (if w_fms w then w <| w_exc := None |> else w) else w.
 
 (* an exception in flight makes every statement a no-op until a guard handles it *)
 Fixpoint denote (p : prog) (w : world) : world * list event :=
@@ -220,20 +227,21 @@ Fixpoint denote (p : prog) (w : world) : world * list event :=
       (if in_flight w1 then handle w1 else w1 <| w_nt := updn (w_nt w1) j (Some (fbval k)) |>, e)
   | PReset => (do_reset w, [])
   | PMode m => (w <| w_ntmode := Some m |>, [])
+  | PFms b => (w <| w_fms := b |>, [])
   | PGuard q => let '(w1, e) := denote q w in (handle w1, e)
   | PSeq a b => let '(w1, e1) := denote a w in let '(w2, e2) := denote b w1 in (w2, e1 ++ e2)
   end.
 
 Definition init_world : world :=
   {| w_n := 0; w_store := fun ci a => match marked c ci a with Some d => d | None => 0 end;
-     w_nt := fun _ => None; w_ntmode := None; w_exc := None |}.
+     w_nt := fun _ => None; w_ntmode := None; w_exc := None; w_fms := fms c |}.
 
 Definition robot_run (ts : list tick) : world * list event := denote (robot_prog ts) init_world.
 
 (* the static call sequence of a program *)
 Fixpoint psites (p : prog) : list site :=
   match p with
-  | PNop | PReset | PMode _ => []
+  | PNop | PReset | PMode _ | PFms _ => []
   | PInvoke s => [s]
   | PFeedback j => [SFeedback j]
   | PGuard q => psites q
@@ -278,6 +286,7 @@ Definition leave_sites (m : mode) : list site :=
 Definition tick_sites (cur : option mode) (t : tick) : option mode * list site :=
   match t with
   | End => (None, match cur with Some m => leave_sites m | None => [] end)
+  | Fms _ => (cur, [])
   | Tick en au te =>
       match cur with
       | Some m =>
